@@ -42,29 +42,47 @@ func c09Seam(r *core.Report) {
 		byUser bool // consumers map the result by user (else by object)
 		tuples []*openfgav1.TupleKey
 		read   func(ctx context.Context, ds storage.RelationshipTupleReader) (storage.TupleIterator, error)
+		// other: a DIFFERENT query with an overlapping filter, issued after the reads above: it must be answered
+		// like its own uncached read (entries of one query never answer another)
+		other func(ctx context.Context, ds storage.RelationshipTupleReader) (storage.TupleIterator, error)
+	}
+	rswu := func(users ...string) func(ctx context.Context, ds storage.RelationshipTupleReader) (storage.TupleIterator, error) {
+		return func(ctx context.Context, ds storage.RelationshipTupleReader) (storage.TupleIterator, error) {
+			var uf []*openfgav1.ObjectRelation
+			for _, u := range users {
+				uf = append(uf, &openfgav1.ObjectRelation{Object: u})
+			}
+			return ds.ReadStartingWithUser(ctx, store, storage.ReadStartingWithUserFilter{ObjectType: "doc", Relation: "viewer", UserFilter: uf}, storage.ReadStartingWithUserOptions{})
+		}
 	}
 	shapes := []shape{
 		{"Read(doc:1,parent) [tupleset of a tuple-to-userset]", true,
 			[]*openfgav1.TupleKey{tk("doc:1", "parent", "folder:z"), tk("doc:1", "parent", "folder:a"), tk("doc:1", "parent", "folder:m")},
 			func(ctx context.Context, ds storage.RelationshipTupleReader) (storage.TupleIterator, error) {
 				return ds.Read(ctx, store, storage.ReadFilter{Object: "doc:1", Relation: "parent"}, storage.ReadOptions{})
-			}},
+			}, nil},
 		{"ReadUsersetTuples(doc:1,viewer)", true,
 			[]*openfgav1.TupleKey{tk("doc:1", "viewer", "group:z#member"), tk("doc:1", "viewer", "group:a#member"), tk("doc:1", "viewer", "group:m#member")},
 			func(ctx context.Context, ds storage.RelationshipTupleReader) (storage.TupleIterator, error) {
 				return ds.ReadUsersetTuples(ctx, store, storage.ReadUsersetTuplesFilter{Object: "doc:1", Relation: "viewer"}, storage.ReadUsersetTuplesOptions{})
-			}},
+			}, nil},
 		{"ReadStartingWithUser(doc,viewer,[user:a])", false,
 			[]*openfgav1.TupleKey{tk("doc:z", "viewer", "user:a"), tk("doc:a", "viewer", "user:a"), tk("doc:m", "viewer", "user:a")},
 			func(ctx context.Context, ds storage.RelationshipTupleReader) (storage.TupleIterator, error) {
 				return ds.ReadStartingWithUser(ctx, store, storage.ReadStartingWithUserFilter{ObjectType: "doc", Relation: "viewer", UserFilter: []*openfgav1.ObjectRelation{{Object: "user:a"}}}, storage.ReadStartingWithUserOptions{})
-			}},
+			}, nil},
 		{"ReadStartingWithUser(doc,viewer,[user:a,user:*]) sorted", false,
 			[]*openfgav1.TupleKey{tk("doc:z", "viewer", "user:a"), tk("doc:a", "viewer", "user:*"), tk("doc:m", "viewer", "user:a")},
 			func(ctx context.Context, ds storage.RelationshipTupleReader) (storage.TupleIterator, error) {
 				return ds.ReadStartingWithUser(ctx, store, storage.ReadStartingWithUserFilter{ObjectType: "doc", Relation: "viewer", UserFilter: []*openfgav1.ObjectRelation{{Object: "user:a"}, {Object: "user:*"}}}, storage.ReadStartingWithUserOptions{WithResultsSortedAscending: true})
-			}},
+			}, nil},
 	}
+	three := []*openfgav1.TupleKey{tk("doc:c", "viewer", "user:c"), tk("doc:d", "viewer", "user:d"), tk("doc:a", "viewer", "user:a")}
+	shapes = append(shapes,
+		shape{name: "ReadStartingWithUser(doc,viewer,[user:a,user:b,user:c]) then [user:a,user:b,user:d]", tuples: three, read: rswu("user:a", "user:b", "user:c"), other: rswu("user:a", "user:b", "user:d")},
+		shape{name: "ReadStartingWithUser(doc,viewer,[user:a,user:b,user:c]) then [user:a,user:b]", tuples: three, read: rswu("user:a", "user:b", "user:c"), other: rswu("user:a", "user:b")},
+		shape{name: "ReadStartingWithUser(doc,viewer,[user:a,user:b]) then [user:a,user:b,user:c,user:d]", tuples: three, read: rswu("user:a", "user:b"), other: rswu("user:a", "user:b", "user:c", "user:d")},
+		shape{name: "ReadStartingWithUser(doc,viewer,[user:c]) then [user:c,user:d]", tuples: three, read: rswu("user:c"), other: rswu("user:c", "user:d")})
 	type obs struct {
 		seq     []string
 		ordered bool
@@ -202,6 +220,22 @@ func c09Seam(r *core.Report) {
 						wg.Wait()
 					}
 					_ = sets
+					if sh.other != nil {
+						itU, err1 := sh.other(ctx, mem)
+						itC, err2 := sh.other(ctx, cds)
+						if err1 == nil && err2 == nil {
+							wantO, gotO := take(itU, sh.byUser), take(itC, sh.byUser)
+							a, b := append([]string{}, gotO.seq...), append([]string{}, wantO.seq...)
+							sort.Strings(a)
+							sort.Strings(b)
+							r.Eval(1)
+							if strings.Join(a, ",") != strings.Join(b, ",") {
+								r.Violate("seam/query-answered-from-the-entry-of-a-different-query/"+rd, fmt.Sprintf("%s %s: the second query returned %v, the store holds %v for it", rd, sh.name, gotO.seq, wantO.seq),
+									seamCase{Reader: rd, Shape: sh.name, Insert: ins, First: cons, Which: "other-query", Got: gotO.seq, Want: wantO.seq})
+							}
+							wg.Wait()
+						}
+					}
 					mem.Close()
 				}
 			}
